@@ -168,11 +168,7 @@ pub open spec fn fed_ok(fed: Seq<Context>, i0: u64) -> bool {
 }
 // the pipeline has been fed exactly `fed` (P1 chained): what it has printed plus what it will print for any continuation x
 // is what the pipeline at entry would print for fed followed by x
-pub open spec fn fed_post(o: &dyn Process, n: &dyn Process, fed: Seq<Context>) -> bool {
-    forall|x: Seq<Context>| n.log().add(#[trigger] n.fut(x)) == o.log().add(o.fut(fed.add(x)))
-}
-// no later row can change the output any more (what (P2) promises after Break)
-pub open spec fn done(p: &dyn Process) -> bool { forall|x: Seq<Context>| #[trigger] p.fut(x) == p.fut(Seq::empty()) }
+//@@ include prelude/fed.rs
 
 // ---- end to end (C01): on a CLEAN stream — values in accepted spellings separated by white space, nothing else — the
 // pipeline is fed exactly the values of the stream, in order
@@ -189,6 +185,14 @@ pub open spec fn clean(p: Seq<Option<u8>>) -> bool
 pub open spec fn inputs(fed: Seq<Context>) -> Seq<JsonValue> { Seq::new(fed.len(), |k: int| fed[k].inp()) }
 impl<S: Read> Master<S> {
     pub closed spec fn only_oa(&self) -> bool { self.cli.only_objects_and_arrays }
+
+    // the part of read_input's contract that unit GO (the driver half of go()) assumes: this wrapper is the machine-checked
+    // proof that the full contract below implies it (same spec file as GO's assumed header)
+    fn read_input_as_assumed_in_go<R: Read>(&self, reader: &mut Reader<R>, index: &mut u64, process: &mut dyn Process) -> (r: Result<ProcessDesision>)
+//@@ include specs/loop/read_input_reduced.spec
+    {
+        self.read_input(reader, index, process)
+    }
 
 //@@ fn loop.read_input = src/lib.rs :: impl<S: Read> Master<S> :: fn read_input
 //@@ safety C01 C05 C06 C14 C16 C17 C11 C03
